@@ -42,7 +42,7 @@ class Prop(BaseProp):
     coq_targets = ['ND/Proofs/C06_proofs.vo']
     extra_model_targets = ['gen/Gen_Field.vo']
     extra_imports = 'From NDgen Require Import Gen_Field.'
-    n_quick, n_thorough = 600, 12000
+    n_quick, n_thorough = 1200, 12000
 
     def cases(self, rng, n):
         tys = genvals.type_list(self.tier, include32=False)
@@ -69,7 +69,7 @@ class Prop(BaseProp):
         for tn in ('Dual64', 'Dual2_64', 'DualSVec64_2', 'DualDVec64:3', 'Dual2SVec64_2', 'Dual2DVec64:3'):
             ty = T[tn]
             for op in ORD:
-                for rep in range(2 if self.tier == 'quick' else 6):
+                for rep in (range(ORD.index(op) % 2, ORD.index(op) % 2 + 1) if self.tier == 'quick' else range(6)):
                     nargs = vlib.OPS[op][2]
                     pool = [0.0, -0.0, 1.0, -1.0, 2.5, -3.0] + ([float('nan')] if op.startswith('po_') else [])
                     res = [rng.choice(pool) for _ in range(nargs)]
@@ -79,10 +79,16 @@ class Prop(BaseProp):
                         res = [res[0]] + sorted(res[1:])           # min <= max
                     a = [genvals.gen_value(rng, ty, genvals.leaf_rand, re_leaf=lambda r, v=v: v) for v in res]
                     triple(ty, op, a, [])
+        # the predicates and == on every type of the tier, with ties and special real parts, every run
+        forced = [(ty, op) for ty in tys for op in PRED + ['eq']]
         while len(out) < n:
-            ty = tys[k % len(tys)]
-            op = ops[(k // len(tys)) % len(ops)] if k < len(tys) * len(ops) else rng.choice(ops)
-            k += 1
+            if forced:
+                ty, op = forced.pop(0)
+            else:
+                # every operation early (operation index runs fastest, the type advances with a stride)
+                op = ops[k % len(ops)] if k < len(tys) * len(ops) else rng.choice(ops)
+                ty = tys[(3 * k + k // len(ops)) % len(tys)]
+                k += 1
             aux = []
             if op in UNARY:
                 re_leaf = DOM[op]
@@ -90,7 +96,10 @@ class Prop(BaseProp):
                 re_leaf = lambda r: r.uniform(0.1, 5)
             elif op == 'div':
                 re_leaf = lambda r: r.choice([1, -1]) * r.uniform(0.2, 4)
-            elif op in ('is_zero', 'is_one', 'eq', 'signum', 'abs', 'is_positive', 'is_negative'):
+            elif op == 'eq':
+                tie = rng.choice([0.0, 1.0, -0.0, -1.0, 2.5, -3.0])
+                re_leaf = (lambda r, tie=tie: tie) if rng.below(2) else (lambda r: r.choice([0.0, 1.0, -0.0, -1.0, 2.5, -3.0, float('nan')]))
+            elif op in ('is_zero', 'is_one', 'signum', 'abs', 'is_positive', 'is_negative'):
                 re_leaf = lambda r: r.choice([0.0, 1.0, -0.0, -1.0, 2.5, -3.0, float('nan')])
             else:
                 re_leaf = lambda r: r.choice([1, -1]) * r.uniform(0.2, 4)
